@@ -266,6 +266,11 @@ class IG:
                         out.append((n, self.resolve(ev.get("rhs"), frame), "assign"))
                     else:
                         out.append((n, None, "update:" + ev.get("op", "")))
+            elif ev["e"] == "call" and ev.get("name") == "operator=" and ev.get("args") and \
+                    isinstance(strip_cast(ev.get("this")), dict) and strip_cast(ev["this"]).get("k") == "l" and \
+                    strip_cast(ev["this"]).get("id") == var:
+                # assignment of a class-type local through its operator=
+                out.append((n, self.resolve(ev["args"][0], frame), "assign"))
             elif ev["e"] == "call":
                 # by-reference write-back of compare_exchange into its `expected`
                 if ev.get("name", "").startswith("compare_exchange") and ev.get("args"):
@@ -323,6 +328,71 @@ class IG:
                 # a copy/move construction carries the value of its operand
                 return self.origins(n.ev["args"][0], fr, depth + 1, seen)
             return [desc]
+        return [desc]
+
+    def param_defs(self, idx):
+        """assignments to root parameter #idx inside the root function"""
+        out = []
+        fr = self.frames[0]
+        for n in fr.ev_node.values():
+            if n.ev["e"] == "asg" and n.ev.get("op") == "=":
+                lhs = strip_cast(n.ev.get("lhs"))
+                if isinstance(lhs, dict) and lhs.get("k") == "p" and lhs.get("i") == idx:
+                    out.append((n, self.resolve(n.ev.get("rhs"), fr)))
+        return out
+
+    def reaching_defs(self, at_node, var):
+        """definitions of frame-tagged local `var` that reach `at_node` (backward search that stops at definitions)"""
+        fr = self.frames[var["fr"]]
+        defs = dict((n.id, (n, rhs, how)) for n, rhs, how in self.local_defs(fr, var["id"]))
+        out = []
+        seen = set()
+        dq = deque(p for p, _ in at_node.pred)
+        while dq:
+            n = dq.popleft()
+            if n.id in seen:
+                continue
+            seen.add(n.id)
+            if n.id in defs:
+                out.append(defs[n.id])
+                continue
+            for p_, _ in n.pred:
+                if p_.id not in seen:
+                    dq.append(p_)
+        return out
+
+    def origins_at(self, desc, at_node, depth=0):
+        """like origins(), but a local is resolved through the definitions that reach `at_node`
+        (flow-sensitive), each definition's right-hand side being evaluated at that definition"""
+        desc = self.resolve(desc, at_node.frame)
+        if not isinstance(desc, dict) or depth > 10:
+            return [desc]
+        k = desc.get("k")
+        if k == "cast":
+            return self.origins_at(desc["x"], at_node, depth + 1)
+        if k == "cond":
+            return self.origins_at(desc["t"], at_node, depth + 1) + self.origins_at(desc["f"], at_node, depth + 1)
+        if k == "l" and "fr" in desc:
+            out = []
+            rd = self.reaching_defs(at_node, desc)
+            if not rd:
+                return [desc]
+            for n, rhs, how in rd:
+                if rhs is None:
+                    out.append({"k": "upd", "how": how, "node": n.id, "of": desc})
+                elif isinstance(rhs, dict) and rhs.get("lab"):
+                    out.append(rhs)
+                else:
+                    out.extend(self.origins_at(rhs, n, depth + 1))
+            return out
+        if k == "e" and "fr" in desc and not desc.get("lab"):
+            fr = self.frames[desc["fr"]]
+            if desc["id"] in fr.children:
+                return self.origins(desc)
+            n = fr.ev_node.get(desc["id"])
+            if n is not None and n.ev["e"] == "ctor" and n.ev.get("ckind") in ("copy", "move") and \
+                    len(n.ev.get("args", [])) == 1:
+                return self.origins_at(n.ev["args"][0], n, depth + 1)
         return [desc]
 
     def expand_cond(self, atom, pol):
